@@ -519,7 +519,8 @@ impl Session {
 				barrier().await;
 				obs.literal = Some(format!("connected {}", self.client.is_connected()));
 			}
-			("deliver", [h]) | ("deliverx", [h]) => {
+			// (an optional third word `for=<op>` names the operation the server made the reply for; it is for the oracles)
+			("deliver", [h, ..]) | ("deliverx", [h, ..]) => {
 				self.inject(Ok(ReceivedMessage::Text(txt(h))));
 				self.settle(&mut obs).await;
 				if obs.fatal.is_some() {
